@@ -439,6 +439,9 @@ class C16(Check):
             e = rich_expr(self.rng, self.der_atoms(desc) + s['u'], depth=2, must=s['u'])
             raised = False
             with B.quiet():
+                if not ca.depends_on(E.to_casadi(e, b.sym_base), ca.vertcat(*[ca.vec(u_) for u_ in b.controls])):
+                    self.count("rejects-skipped(control cancels out of the expression)")
+                    continue
                 try:
                     b.ocp.der(E.to_casadi(e, b.sym_base))
                 except Exception:
@@ -1833,16 +1836,17 @@ class C18(Check):
                 self.violation("SplineMethod: " + msg, {"L": L, "N": N, "T": T, "order": order, "position": position}, {"kind": "roundtrip-spline", "position": position})
                 return
 
-    def roundtrip(self, make, position, label):
+    def roundtrip(self, make, position, label, remethod=None):
         """make() -> (ocp, extra_edit or None). → error message | None"""
+        import casadi as ca
         rockit = B.import_rockit()
         ocp = make()
         ref = make()                 # the same description, never saved: the reference problem
         fname = "c18_%d.rockit" % self.evaluations
         with B.quiet():
-            if position in ('after-transcribe', 'after-solve', 'after-solve-edit'):
+            if position in ('after-transcribe', 'after-solve', 'after-solve-edit', 'after-solve-new-method'):
                 ocp._transcribed
-            if position in ('after-solve', 'after-solve-edit'):
+            if position in ('after-solve', 'after-solve-edit', 'after-solve-new-method'):
                 for o in (ocp, ref):
                     try:
                         o.solve_limited()
@@ -1851,6 +1855,22 @@ class C18(Check):
             if position == 'after-solve-edit':
                 for o in (ocp, ref):
                     o.add_objective(o.at_tf(o.states[0][0]) if len(o.states) else 0 * o.T)
+            if position == 'after-solve-new-method' and remethod is not None:
+                for o in (ocp, ref):
+                    remethod(o)
+            if position in ('after-transcribe', 'after-solve') and len(ocp.parameters.get('', [])) >= 1 and self.rng.random() < 0.7:
+                # parameter values replaced while the problem is transcribed (the MPC pattern): one symbol per call, or one call on a
+                # concatenation of two symbols; the file must carry the NEW values
+                ps = ocp.parameters['']
+                two = len(ps) >= 2
+                vals = [self.rng.randint(1, 12) / 4.0 for _ in range(ps[0].numel() + (ps[1].numel() if two else 0))]
+                for o in (ocp, ref):
+                    q = o.parameters['']
+                    if two:
+                        o.set_value(ca.vertcat(ca.vec(q[0]), ca.vec(q[1])), ca.DM(vals))
+                    else:
+                        o.set_value(q[0], ca.DM(vals))
+                self.count("values-replaced-while-transcribed:" + ("concatenation" if two else "one-symbol"))
             set_before = solver_settings(ocp)
             acc_before = accessors(ocp)
             meth_before = method_settings(ocp)
@@ -1923,19 +1943,22 @@ class C18(Check):
             for u_ in list(st.controls)[:1]:
                 st.set_initial(u_, ca.DM.ones(u_.numel(), 1) * (-0.5))
 
-    POSITIONS = ['before', 'after-transcribe', 'after-solve', 'after-solve-edit']
+    POSITIONS = ['before', 'after-transcribe', 'after-solve', 'after-solve-edit', 'after-solve-new-method']
 
     def single_slice(self):
         name = "roundtrip-single-stage"
-        n = 16 if self.tier == 'quick' else 200
+        n = 20 if self.tier == 'quick' else 250
         for it in range(n):
             desc = self.gen()
-            position = self.POSITIONS[it % 4]
+            position = self.POSITIONS[it % 5]
 
             def make(desc=desc):
                 return B.build(copy.deepcopy(desc), transcribe=False).ocp
+
+            def remethod(o, desc=desc):
+                o.method(B.make_method(None, copy.deepcopy(desc['method'])))
             try:
-                msg = self.roundtrip(make, position, "single")
+                msg = self.roundtrip(make, position, "single", remethod=remethod)
             except (ZeroDivisionError, OverflowError):
                 continue
             self.record_case(desc, True, {"method": desc['method'], "position": position, "states": desc['states'], "algs": desc['algs']})
